@@ -96,6 +96,7 @@ class DT:
 class ListV:
     items: tuple                     # tuple of values (homogeneous lists keep one representative + n='*')
     star: bool = False
+    shared: bool = False             # [x] * n: every slot is the same object
 
 
 @dataclass(frozen=True)
@@ -402,6 +403,13 @@ class _CB(flow.DefaultCB):
                     for (ft, fval) in s.flags:
                         if ft.startswith(norm(l) + ' == ') and fval and ft != k2:
                             return not isinstance(e.ops[0], ast.Eq)
+        nf = getattr(self.it, 'num_facts', None)
+        if nf:
+            a = self._absnum(e, s, nf)
+            if a is not None and a[0] == 'bool':
+                return a[1]
+            if a is not None and a[0] == 'num':
+                return a[1] != 0
         if isinstance(e, ast.Call) and norm(e.func) == 'isinstance' and len(e.args) == 2:
             v, _ = self.ev(e.args[0], s, quiet=True)
             tn = norm(e.args[1])
@@ -411,6 +419,81 @@ class _CB(flow.DefaultCB):
                 return False
             if tn == 'Future' and isinstance(v, (TV, NoneV)):
                 return False
+        return None
+
+    def _absnum(self, e: ast.expr, s: St, nf: dict) -> tuple | None:
+        """Abstract value of a small arithmetic test over extents known to be 0 or positive ('P' = at least 1):
+        ('num', 0 | 'P' | int) or ('bool', b); None when not decided."""
+        if isinstance(e, ast.Constant) and isinstance(e.value, bool):
+            return ('bool', e.value)
+        if isinstance(e, ast.Constant) and isinstance(e.value, int):
+            return ('num', e.value)
+        if isinstance(e, (ast.Name, ast.Subscript, ast.Attribute)):
+            try:
+                v, _ = self.ev(e, s, quiet=True)
+            except Exception:  # noqa: BLE001
+                return None
+            tag = v.tag if isinstance(v, ObjV) else (v.text if isinstance(v, SV) else None)
+            if tag in nf:
+                return ('num', nf[tag])
+            return None
+        if isinstance(e, ast.BinOp) and isinstance(e.op, (ast.Add, ast.Mult)):
+            a, b = self._absnum(e.left, s, nf), self._absnum(e.right, s, nf)
+            if a is None or b is None or a[0] != 'num' or b[0] != 'num':
+                return None
+            x, y = a[1], b[1]
+            if isinstance(e.op, ast.Add):
+                if x == 0:
+                    return ('num', y)
+                if y == 0:
+                    return ('num', x)
+                if 'P' in (x, y):
+                    return ('num', 'P') if all(v == 'P' or (isinstance(v, int) and v >= 0) for v in (x, y)) else None
+                return ('num', x + y)
+            if x == 0 or y == 0:
+                return ('num', 0)
+            if 'P' in (x, y):
+                return ('num', 'P') if all(v == 'P' or (isinstance(v, int) and v >= 1) for v in (x, y)) else None
+            return ('num', x * y)
+        if isinstance(e, ast.Call) and isinstance(e.func, ast.Name) and e.func.id in ('max', 'sum', 'any', 'min', 'all') and e.args:
+            elts = e.args if len(e.args) > 1 else (e.args[0].elts if isinstance(e.args[0], (ast.Tuple, ast.List)) else None)
+            if elts is None:
+                return None
+            vs = [self._absnum(x, s, nf) for x in elts]
+            if any(v is None or v[0] != 'num' for v in vs):
+                return None
+            nz = [v[1] for v in vs if v[1] != 0]
+            if e.func.id in ('max', 'sum', 'any'):
+                r = 0 if not nz else ('P' if all(v == 'P' or (isinstance(v, int) and v >= 1) for v in nz) else None)
+            else:
+                r = 0 if len(nz) < len(vs) else ('P' if all(v == 'P' or (isinstance(v, int) and v >= 1) for v in nz) else None)
+            if r is None:
+                return None
+            return ('bool', r != 0) if e.func.id in ('any', 'all') else ('num', r)
+        if isinstance(e, ast.Compare) and len(e.ops) == 1:
+            a, b = self._absnum(e.left, s, nf), self._absnum(e.comparators[0], s, nf)
+            if a is None or b is None or a[0] != 'num' or b[0] != 'num':
+                return None
+            x, y = a[1], b[1]
+            op = e.ops[0]
+            if x != 'P' and y != 'P':
+                tbl = {ast.Gt: x > y, ast.GtE: x >= y, ast.Lt: x < y, ast.LtE: x <= y, ast.Eq: x == y, ast.NotEq: x != y}
+                return ('bool', tbl[type(op)]) if type(op) in tbl else None
+            if x == 'P' and isinstance(y, int):
+                if y <= 0:
+                    tbl = {ast.Gt: True, ast.GtE: True, ast.Lt: False, ast.LtE: False, ast.Eq: False, ast.NotEq: True}
+                    return ('bool', tbl[type(op)]) if type(op) in tbl else None
+                if y == 1:
+                    tbl = {ast.GtE: True, ast.Lt: False}
+                    return ('bool', tbl[type(op)]) if type(op) in tbl else None
+            if y == 'P' and isinstance(x, int):
+                if x <= 0:
+                    tbl = {ast.Lt: True, ast.LtE: True, ast.Gt: False, ast.GtE: False, ast.Eq: False, ast.NotEq: True}
+                    return ('bool', tbl[type(op)]) if type(op) in tbl else None
+                if x == 1:
+                    tbl = {ast.LtE: True, ast.Gt: False}
+                    return ('bool', tbl[type(op)]) if type(op) in tbl else None
+            return None
         return None
 
     def refine(self, e: ast.expr, pol: bool, s: St) -> St:
@@ -448,6 +531,10 @@ class _CB(flow.DefaultCB):
             if isinstance(v, ListV) and not v.star and len(v.items) == len(t.elts):
                 for e, x in zip(t.elts, v.items):
                     s = self.store(e, x, s, st)
+                return s
+            if isinstance(v, ObjV) and v.tag in ('padding', 'kernel_size', 'stride', 'dilation') and len(t.elts) == 2:
+                for k_, e in enumerate(t.elts):
+                    s = self.store(e, ObjV(f'{v.tag}[{k_}]'), s, st)
                 return s
             if isinstance(v, ShapeV) and len(v.axes) == len(t.elts):
                 for e, a in zip(t.elts, v.axes):
@@ -684,6 +771,9 @@ class _CB(flow.DefaultCB):
             lst, cnt = (a, b) if isinstance(a, ListV) else (b, a)
             if not lst.star and cnt.text.isdigit() and 0 < int(cnt.text) <= 4:
                 return ListV(lst.items * int(cnt.text))
+            if not lst.star and len(lst.items) == 1 and not cnt.text.lstrip('-').isdigit():
+                # [x] * n with a symbolic count: n references to one object
+                return ListV(lst.items, star=True, shared=isinstance(lst.items[0], TV))
         if isinstance(op, ast.Add) and isinstance(a, ShapeV) and isinstance(b, (ListV, ShapeV)):
             extra = b.axes if isinstance(b, ShapeV) else tuple(_axis_of(x) for x in b.items)
             return ShapeV(a.axes + extra)
